@@ -239,7 +239,7 @@ print(x)
 x"); OpI (parse_code "let y = x + ua
 print(y)"); OpDigest]
   = ["ok|2 ua|Ua|2 ua"; "ok|-|-|3 ua";
-     "imp=[];vars=[x,y];fns=[];units=[ua];dims=[];ureps=[ua=ua[Ua]];vals=[x=2 ua:= Ua,y=3 ua:= Ua]"]%string
+     "imp=[];vars=[x,y];fns=[];units=[ua];dims=[];ureps=[ua=ua[Ua]];vals=[x=2 ua:= Ua,y=3 ua:= Ua];ans=[2 ua:Ua]"]%string
   /\ run_ops current_skeleton [] fresh
     [OpI (parse_code "unit ua
 let x = ua + ua
@@ -248,5 +248,5 @@ x
 let y = x + ua
 print(y)"); OpDigest]
   = ["ok|2 ua|-|2 ua" ++ rs ++ "3 ua";
-     "imp=[];vars=[x,y];fns=[];units=[ua];dims=[];ureps=[ua=ua[Ua]];vals=[x=2 ua:= Ua,y=3 ua:= Ua]"]%string.
+     "imp=[];vars=[x,y];fns=[];units=[ua];dims=[];ureps=[ua=ua[Ua]];vals=[x=2 ua:= Ua,y=3 ua:= Ua];ans=[2 ua:Ua]"]%string.
 Proof. vm_compute. split; reflexivity. Qed.
